@@ -8,8 +8,9 @@ clean
 [ -z "$(git -C "$S/repo" status --porcelain)" ] || { echo "SEED $P: scratch repo not clean"; exit 2; }
 git -C "$S/repo" apply "$P" 2>/dev/null || git -C "$S/repo" apply -3 "$P" 2>/dev/null || { echo "SEED $P: patch does not apply"; exit 2; }
 for id in "$@"; do
-  out="$("$S/verif/check" "$id" quick 2>&1 | tail -6)"
-  if echo "$out" | grep -q "^VIOLATED"; then echo "SEED $P: $id CAUGHT ($(echo "$out" | grep -o 'violation\[0\]: [^:]*' | head -1))";
+  full="$("$S/verif/check" "$id" quick 2>&1)"; rc=$?
+  out="$(echo "$full" | tail -8)"
+  if [ $rc -eq 1 ] || echo "$out" | grep -q "^VIOLATED"; then echo "SEED $P: $id CAUGHT ($(echo "$out" | grep -o 'violation\[0\]: [^:]*' | head -1))";
   elif echo "$out" | grep -q "^HELD"; then echo "SEED $P: $id MISSED";
   else echo "SEED $P: $id OTHER: $(echo "$out" | tail -1)"; fi
 done
